@@ -372,7 +372,7 @@ func TestC06(t *testing.T) {
 		rep.Extra["bytes_max_alloc_per_group_of_32_strings"] = int64(maxAlloc)
 		rep.Distinct += nontrivial
 		if refDict == 0 || nontrivial == 0 {
-			fail("vacuous: no byte string is a dictionary / reaches rain's own validation")
+			rep.Vacuous("vacuous: no byte string is a dictionary / reaches rain's own validation")
 		}
 		rep.Sample(2, map[string]any{"bytes_outcomes": topHist(hist, 12)})
 	}
@@ -619,7 +619,7 @@ func TestC06(t *testing.T) {
 	rep.Extra["note_piece_length_2^32+16384_accepted_as_16384"] = truncatedPL
 	rep.Sample(16, map[string]any{"parse_outcomes": topHist(parseHist, 14)})
 	if len(accepted) == 0 || latticeNontrivial == 0 {
-		fail("vacuous: the lattice has no accepted member")
+		rep.Vacuous("vacuous: the lattice has no accepted member")
 	}
 
 	// ---------------- construct pieces for every accepted (case, pad flag)
@@ -701,7 +701,7 @@ func TestC06(t *testing.T) {
 		_ = covered
 		rep.Extra["construct_outcomes"] = outcomes
 		if outcomes["ok"] == 0 {
-			fail("vacuous: construct-pieces never completed")
+			rep.Vacuous("vacuous: construct-pieces never completed")
 		}
 	}
 
@@ -863,7 +863,7 @@ func TestC06(t *testing.T) {
 		rep.Extra["session_outcome_classes"] = int64(len(hist))
 		rep.Sample(18, map[string]any{"session_outcomes": topHist(hist, 10)})
 		if dbgSkip == "" && (nAccAdd == 0 || nAccResume == 0 || tooMany == 0 || overSizeAcceptedByNew == 0 || edgeAccepted < 2) {
-			fail("vacuous session part: add=%d resume=%d too-many-pieces=%d over-size=%d edge-accepted=%d (want >= 2)", nAccAdd, nAccResume, tooMany, overSizeAcceptedByNew, edgeAccepted)
+			rep.Vacuous("vacuous session part: add=%d resume=%d too-many-pieces=%d over-size=%d edge-accepted=%d (want >= 2)", nAccAdd, nAccResume, tooMany, overSizeAcceptedByNew, edgeAccepted)
 		}
 	}
 	fs.flush(rep)
